@@ -9,6 +9,7 @@ import (
 	"fmt"
 	"os"
 	"strings"
+	"time"
 
 	"verif/sim/common"
 )
@@ -70,6 +71,11 @@ func Main(s SQLiFn, x XSSFn) {
 		}
 		w.Flush()
 		f.Close()
+		if os.Getenv("VERIF_REF_LINGER") != "" {
+			// a library goroutine that is still unwinding a panic (its deferred
+			// WaitGroup.Done already released the caller) gets time to kill the process
+			time.Sleep(40 * time.Millisecond)
+		}
 	case "one":
 		in, err := common.UnB64(os.Args[3])
 		if err != nil {
